@@ -388,6 +388,19 @@ func (a *Analysis) onlySyncCallback(f *ssa.Function) bool {
 					if g := ir.CalleeThroughBound(c); g != nil && SyncCallbacks[ir.FullName(g)] {
 						continue
 					}
+					// a private wrapper that only hands the function on to such a taker (or
+					// calls it): `func (q *queue) each(f func(T) bool) { q.items.Each(f) }`
+					if g := c.StaticCallee(); g != nil && a.P.InRepo[g] {
+						handed := true
+						for i, arg := range c.Args {
+							if arg == ssa.Value(mc) && !a.onlyRunsParam(g, i, 0) {
+								handed = false
+							}
+						}
+						if handed {
+							continue
+						}
+					}
 					ok = false
 				case *ssa.Store:
 					if _, isAlloc := u.Addr.(*ssa.Alloc); isAlloc && u.Val == ssa.Value(mc) {
@@ -417,6 +430,46 @@ func (a *Analysis) onlySyncCallback(f *ssa.Function) bool {
 		}
 	}
 	return ok
+}
+
+// onlyRunsParam: the only things g does with its idx'th parameter (a function)
+// are to call it, or to hand it to a synchronous callback taker or to another
+// private function of which the same holds.
+func (a *Analysis) onlyRunsParam(g *ssa.Function, idx, depth int) bool {
+	if depth > 2 || idx >= len(g.Params) || len(g.Blocks) == 0 {
+		return false
+	}
+	par := g.Params[idx]
+	refs := par.Referrers()
+	if refs == nil {
+		return true
+	}
+	for _, r := range *refs {
+		ci, isCall := r.(*ssa.Call)
+		if !isCall {
+			if _, isDbg := r.(*ssa.DebugRef); isDbg {
+				continue
+			}
+			return false
+		}
+		c := ci.Common()
+		if c.Value == ssa.Value(par) {
+			continue
+		}
+		if h := ir.CalleeThroughBound(c); h != nil && SyncCallbacks[ir.FullName(h)] {
+			continue
+		}
+		h := c.StaticCallee()
+		if h == nil || !a.P.InRepo[h] {
+			return false
+		}
+		for i, arg := range c.Args {
+			if arg == ssa.Value(par) && !a.onlyRunsParam(h, i, depth+1) {
+				return false
+			}
+		}
+	}
+	return true
 }
 
 func cellEscapes(al *ssa.Alloc) bool {
